@@ -464,6 +464,18 @@ example : (parallelize [1, 2, 3, 4, 5] 3)[1]? =
     some (([1, 2, 3, 4, 5].drop (bound 1 5 3)).take (bound (1 + 1) 5 3 - bound 1 5 3)) :=
   C07.parallelize_slice [1, 2, 3, 4, 5] 3 (by decide) 1 (by decide)
 
+-- NONVACUOUS: PysparklingVerif.C07.coalesce_length
+example : (coalesce 2 [[1], [2], [3], [4], [5]]).length = min 2 5 :=
+  C07.coalesce_length [[1], [2], [3], [4], [5]] 2 (Or.inl (by decide))
+/-- (the other disjunct: a dataset without partitions, `coalesce(0)`) -/
+example : (coalesce 0 ([] : Parts Nat)).length = min 0 0 := C07.coalesce_length [] 0 (Or.inr rfl)
+
+-- NONVACUOUS: PysparklingVerif.C07.partitionBy_placement
+example : (partitionBy 2 (fun k : Nat => k) [[(1, "a"), (2, "b")], [(3, "c")]]).length = 2 ∧
+    ∀ j, j < 2 → (partitionBy 2 (fun k : Nat => k) [[(1, "a"), (2, "b")], [(3, "c")]])[j]? =
+      some ((flat [[(1, "a"), (2, "b")], [(3, "c")]]).filter (fun kv => kv.1 % 2 == j)) :=
+  C07.partitionBy_placement 2 (fun k => k) _ (Or.inl (by decide))
+
 -- NONVACUOUS: PysparklingVerif.C07.parallelize_balanced
 example : ∀ p ∈ parallelize [1, 2, 3, 4, 5] 3, ∀ q ∈ parallelize [1, 2, 3, 4, 5] 3, p.length ≤ q.length + 1 :=
   C07.parallelize_balanced [1, 2, 3, 4, 5] 3 (by decide)
@@ -772,14 +784,18 @@ theorem c12KeysOk : ∀ k ∈ c12Keys, C12.KeyOrderOk k c12Rows := by
   unfold C12.KeyOrderOk
   decide +kernel
 
+theorem c12KeysEvalOk : ∀ k ∈ c12Keys, C12.KeyEvalOk k c12Rows := by
+  unfold C12.KeyEvalOk
+  decide +kernel
+
 -- NONVACUOUS: PysparklingVerif.C12.sort_perm_sorted
 example : (sortM c12Keys c12Rows).Perm c12Rows ∧ (sortM c12Keys c12Rows).Pairwise (fun a b => lexLe c12Keys a b = true) :=
-  C12.sort_perm_sorted c12Keys c12Rows c12KeysOk
+  C12.sort_perm_sorted c12Keys c12Rows c12KeysOk c12KeysEvalOk
 
 -- NONVACUOUS: PysparklingVerif.C12.sort_stable
 /-- rows 0 and 3 tie on both keys -/
 example : [[.int 1, .int 10, .str "x"], [.int 1, .int 10, .str "w"]].Sublist (sortM c12Keys c12Rows) :=
-  C12.sort_stable c12Keys c12Rows c12KeysOk [.int 1, .int 10, .str "x"] [.int 1, .int 10, .str "w"]
+  C12.sort_stable c12Keys c12Rows c12KeysOk c12KeysEvalOk [.int 1, .int 10, .str "x"] [.int 1, .int 10, .str "w"]
     (by decide +kernel) (by decide +kernel)
 
 -- NONVACUOUS: PysparklingVerif.C12.union_positional
@@ -818,7 +834,7 @@ def c13R' : Parts Row := [[[.int 1, .int 10], [.int 1, .int 11], [.int 3, .int 3
 -- NONVACUOUS: PysparklingVerif.C13.dfjoin_partition_independent
 /-- two different partitionings of the same two tables, full outer join -/
 example : (dfJoin .full ["k", "a"] ["k", "b"] ["k"] c13L c13R).Perm (dfJoin .full ["k", "a"] ["k", "b"] ["k"] c13L' c13R') :=
-  C13.dfjoin_partition_independent .full ["k", "a"] ["k", "b"] ["k"] c13L c13L' c13R c13R' (by decide) (by decide)
+  C13.dfjoin_partition_independent .full ["k", "a"] ["k", "b"] ["k"] c13L c13L' c13R c13R' (by decide) (by decide) (by decide)
 
 -- NONVACUOUS: PysparklingVerif.C13.dfjoin_columns
 example :
@@ -826,7 +842,12 @@ example :
       ["k"] ++ (["k", "a"].filter fun n => !["k"].contains n) ++
         (if How.left = .semi ∨ How.left = .anti then [] else ["k", "b"].filter fun n => !["k"].contains n) ∧
     ∀ row ∈ dfJoin .left ["k", "a"] ["k", "b"] ["k"] c13L c13R, row.length = (joinNames .left ["k", "a"] ["k", "b"] ["k"]).length :=
-  C13.dfjoin_columns .left ["k", "a"] ["k", "b"] ["k"] c13L c13R (by decide) (by decide)
+  C13.dfjoin_columns .left ["k", "a"] ["k", "b"] ["k"] c13L c13R (by decide) (by decide) (by decide)
+
+-- NONVACUOUS: PysparklingVerif.C13.dfjoin_perm
+/-- the join column "k" is on both sides -/
+example : (dfJoin .full ["k", "a"] ["k", "b"] ["k"] c13L c13R).Perm (specJoin .full ["k", "a"] ["k", "b"] ["k"] (flat c13L) (flat c13R)) :=
+  C13.dfjoin_perm .full ["k", "a"] ["k", "b"] ["k"] c13L c13R (by decide)
 
 end C13
 
@@ -1067,6 +1088,10 @@ end C17
 /-! ## C18 -/
 section C18
 open PysparklingVerif.Cast
+
+-- NONVACUOUS: PysparklingVerif.C18.cast_float_wraps
+/-- 70000.5 = 140001 / 2 cast to a short -/
+example : castFloatTo .short 140001 2 = wrap 16 (Int.tdiv 140001 2) := C18.cast_float_wraps .short 140001 2 (by decide)
 
 -- NONVACUOUS: PysparklingVerif.C18.cast_in_range_id
 /-- both end points of the short range, and a long -/
@@ -1482,9 +1507,7 @@ end EquivC11
 -- NO-HYPOTHESES: PysparklingVerif.C06.take_values_prefix
 -- NO-HYPOTHESES: PysparklingVerif.C06.take_zero_nothing
 -- NO-HYPOTHESES: PysparklingVerif.C07.parallelize_flat
--- NO-HYPOTHESES: PysparklingVerif.C07.coalesce_length
 -- NO-HYPOTHESES: PysparklingVerif.C07.repartition_layout
--- NO-HYPOTHESES: PysparklingVerif.C07.partitionBy_placement
 -- NO-HYPOTHESES: PysparklingVerif.C07.mapPartitionsWithIndex_indices
 -- NO-HYPOTHESES: PysparklingVerif.C07.zipWithUniqueId_distinct
 -- NO-HYPOTHESES: PysparklingVerif.C09.torn_generalises
@@ -1494,7 +1517,6 @@ end EquivC11
 -- NO-HYPOTHESES: PysparklingVerif.C12.limit_prefix
 -- NO-HYPOTHESES: PysparklingVerif.C12.dedup_spec
 -- NO-HYPOTHESES: PysparklingVerif.C12.partition_independent
--- NO-HYPOTHESES: PysparklingVerif.C13.dfjoin_perm
 -- NO-HYPOTHESES: PysparklingVerif.C13.crossJoin_eq
 -- NO-HYPOTHESES: PysparklingVerif.C14.rollup_keys
 -- NO-HYPOTHESES: PysparklingVerif.C15.sources_consistent
@@ -1507,7 +1529,6 @@ end EquivC11
 -- NO-HYPOTHESES: PysparklingVerif.C17.stats_any_merge_tree
 -- NO-HYPOTHESES: PysparklingVerif.C17.cov_any_partitioning
 -- NO-HYPOTHESES: PysparklingVerif.C18.cast_int_wraps
--- NO-HYPOTHESES: PysparklingVerif.C18.cast_float_wraps
 -- NO-HYPOTHESES: PysparklingVerif.C18.cast_bool_wraps
 -- NO-HYPOTHESES: PysparklingVerif.C18.wrap_in_range
 -- NO-HYPOTHESES: PysparklingVerif.C18.bool_string_roundtrip
